@@ -446,7 +446,8 @@ def relation(exp, obs):
                 bad.append(("keeps-its-value", wit, {"object": exp["name"], "data": d["name"], "expected": None, "observed": o["vals"]}))
             continue  # unreadable arrays are reported by the invariants
         if o["vals"] is None:
-            bad.append(("keeps-its-value", wit, {"object": exp["name"], "data": d["name"], "expected": d["vals"], "observed": None}))
+            if d["vals"]:  # an expected 0-entry array has no entry that could be lost
+                bad.append(("keeps-its-value", wit, {"object": exp["name"], "data": d["name"], "expected": d["vals"], "observed": None}))
             continue
         if d["assoc"] == "VERTEX":
             ids_e, ids_o = ev, ov
@@ -515,7 +516,9 @@ def judge(before, op, expect, after_model, feats, raised, obs, stage):
     # removal / object copy code differs between Points and CellObject; data-level operations do not
     head = f"{fam}.{opname(op)}" if op[0] in ("rv", "rc", "cp", "cc", "ro") else opname(op)
     geo_feats = [x for x in feats if x in ("no-cell-touched", "removes-all", "keeps-none", "keeps-all", "index-out-of-range")]
-    ftxt = f"[{','.join(geo_feats)}]" if geo_feats else ""
+    # witnesses carry the one input-shape feature the removal code branches on; the others
+    # (removes-all, keeps-all, ...) go to the detail: they would split one defect over many signatures
+    ftxt = "[no-cell-touched]" if "no-cell-touched" in geo_feats else ""
     pre = "" if stage == "live" else "after re-open: "
 
     # the two state clauses hold "always": after success, after failure, live and re-opened
@@ -540,8 +543,7 @@ def judge(before, op, expect, after_model, feats, raised, obs, stage):
         if detail:
             # witness: operation + exception class + the one input-shape feature the removal code branches on
             # (the others would only split one defect over many signatures)
-            shape = "[no-cell-touched]" if "no-cell-touched" in geo_feats else ""
-            out.append(("failed-operation-leaves-consistent", f"{pre}{head}{shape} raised {raised}", [{"input": geo_feats}] + detail[:4]))
+            out.append(("failed-operation-leaves-consistent", f"{pre}{head}{ftxt} raised {raised}", [{"input": geo_feats}] + detail[:4]))
         out += [(c, w, d) for c, w, d in inv if "unreadable" in w]
         return out
 
@@ -565,8 +567,16 @@ def judge(before, op, expect, after_model, feats, raised, obs, stage):
         target = f_before["data"][op[1]]["name"]
     elif op[0] == "ad":
         target = f"n{len(f_before['data'])}"
+    def role(d):
+        """For object copies the witness says whether the source or the copy is off."""
+        if op[0] not in ("cp", "cc"):
+            return ""
+        return " the copy" if d.get("object") != before["focus"] else " source object"
+
     seen_len = set()
     for c, w, d in rel:
+        if expect == "refuse" and d.get("object") == before["focus"] and d.get("data") == target:
+            continue  # the data that took the longer array: reported once, as longer-refused
         if c == "LENGTH":
             seen_len.add((d["object"], d["data"]))
             on_target = d["object"] == before["focus"] and d["data"] == target
@@ -575,11 +585,11 @@ def judge(before, op, expect, after_model, feats, raised, obs, stage):
             elif special == "longer-refused" and on_target:
                 pass  # already reported as accepted
             else:
-                out.append(("one-entry-per-element", f"{pre}{head}{ftxt} {w}", d))
+                out.append(("one-entry-per-element", f"{pre}{head}{ftxt}{role(d)} {w}", d))
         elif c == "keeps-its-value" and special == "shorter-padded" and d.get("data") == target and d["object"] == before["focus"]:
             out.append((special, f"{pre}{w} array wrong padding or prefix", dict(d, op=op)))
         else:
-            out.append((c, f"{pre}{head}{ftxt} {w}".rstrip(), d))
+            out.append((c, f"{pre}{head}{ftxt}{role(d)} {w}".rstrip(), d))
     for c, w, d in inv:
         if c == "one-entry-per-element" and (d["object"], d["data"]) in seen_len:
             continue
@@ -588,7 +598,7 @@ def judge(before, op, expect, after_model, feats, raised, obs, stage):
         if "unreadable" in w:
             out.append((c, w, d))
         else:
-            out.append((c, f"{pre}{head}{ftxt} {w}".rstrip(), d))
+            out.append((c, f"{pre}{head}{ftxt}{role(d)} {w}".rstrip(), d))
     # de-duplicate signatures within one execution
     uniq, res = set(), []
     for c, w, d in out:
